@@ -155,7 +155,7 @@ theorem dhcp_write_eq (cx : Ctx) (d : Dhcp) (hi : d.Inv) (region : Bytes) (hr : 
   simp only []
   have i2 := emit_inv _ d.h iG (by simp [OutCursor.ofRegion, hi.hlen]; omega)
   rw [write_ok _ _ i2 (by simp only [emit_ofRegion_size, hvl, hi.hlen]; omega)]
-  simp only [emit_emit, emit_ofRegion_buffer, Out.pure_eq]
+  simp only [emit_emit, emit_ofRegion_buffer]
   have hpre : (d.h ++ (Dhcp.magic ++ Dhcp.optsBytes d.opts)).length = 236 + d.size := by
     rw [List.length_append, hvl, hi.hlen]
   rw [hpre]
